@@ -6,7 +6,7 @@ git reset -q --hard HEAD; git apply "$patch" || git apply --3way "$patch" || { e
 trap "git -C $wt reset -q --hard HEAD" EXIT
 cd /verif
 for id in "$@"; do
-  out=$(AIOFTP_SRC=$wt/src /venv/bin/python checks/run.py "$id" --tier "${TIER:-quick}" ${BUDGET:+--budget $BUDGET} 2>&1)
+  out=$(AIOFTP_SRC=$wt/src VERIF_EVIDENCE_DIR=/tmp/ev_seedtest /venv/bin/python checks/run.py "$id" --tier "${TIER:-quick}" ${BUDGET:+--budget $BUDGET} 2>&1)
   rc=$?
   echo "== $id exit $rc"
   echo "$out" | grep -E "^violation:|^KNOWN|HARNESS" | cut -c1-300 | head -${LINES_MAX:-6}
